@@ -12,13 +12,13 @@ PROPERTY = 'C09'
 RULE = ("x/y, x//y, x%y of real operands vs exact Fraction arithmetic: '/' has no overflow/underflow flag, is exact when the quotient is representable in the result format and otherwise "
         "|q_hat-q|<LSB; '//' == floor(x/y) exactly; '%' == x-y*floor(x/y) exactly; (x//y)*y + x%y == x computed through the library; result formats follow the documented rules; raw == repr on // and %. "
         "Generated: exhaustive - every pair of formats with n_word<=4 (thorough <=5), n_frac -1..n_word+1, whose optimal result word is >=1, every code pair with divisor!=0, roundings trunc/floor/around on the dividend's config; "
-        "Hypothesis - random format pairs with result word <=53 biased to the extreme quotient (most negative / +-1 LSB) and negative inexact quotients. "
+        "Hypothesis - random format pairs with result word <=53 (operand words up to 62 bits; repr method only for operand words <=53 and result words <=40: it computes in float64) biased to the extreme quotient (most negative / +-1 LSB) and negative inexact quotients. "
         "Non-trivial = quotient not representable in the result format, or negative; distinct = distinct (formats, codes, op, method, rounding).")
 ASSUMPTIONS = ['operands created from raw codes; divisor != 0', 'format pairs whose documented optimal word is < 1 are rejected by the library (ValueError) and are outside the generator']
 EXHAUSTIVE = False    # the whole quantifier is not enumerated; complete sub-domains are listed in EXHAUSTIVE_SUBDOMAINS
 EXHAUSTIVE_SUBDOMAINS = {'quick': ['all format pairs n_word<=4 x all code pairs (divisor!=0) x {/,//,%} x 3 roundings, raw; repr for n_word<=3'],
                          'thorough': ['all format pairs n_word<=5 x all code pairs x 3 ops x 3 roundings x raw; repr for n_word<=4']}
-REQUIRED_CLASSES = {'inexact-quotient': 1000, 'negative-quotient': 1000, 'extreme-quotient': 50}
+REQUIRED_CLASSES = {'operand>53': 500, 'inexact-quotient': 1000, 'negative-quotient': 1000, 'extreme-quotient': 50}
 ROUNDS = ('trunc', 'floor', 'around')
 
 
@@ -207,9 +207,13 @@ def task_exh(ctx, pairs, methods):
 
 @st.composite
 def st_case(draw):
+    # the statement bounds the RESULT word (<=53), not the operand words: a third of the cases have operand words up to 62 bits
+    wide = draw(st.integers(0, 2)) == 0
     for _ in range(30):
-        fx = draw(C.st_fmt(max_w=40, f_lo=-1, f_hi_extra=1))
+        fx = draw(C.st_fmt(max_w=62 if wide else 40, min_w=41 if wide else 1, f_lo=-1, f_hi_extra=1))
         fy = draw(C.st_fmt(max_w=40, f_lo=-1, f_hi_extra=1))
+        if wide and draw(st.booleans()):
+            fy = (fy[0], draw(st.integers(1, 6)), fy[2] % 4)
         op = draw(st.sampled_from(['truediv', 'floordiv', 'mod']))
         fz = res_fmt(op, fx, fy)
         if 1 <= fz[1] <= 53:
@@ -239,13 +243,15 @@ def body(ctx, case):
         ctx.cls('negative-quotient')
     if case['kind'] == 'extreme':
         ctx.cls('extreme-quotient')
+    if max(fx[1], fy[1]) > 53:
+        ctx.cls('operand>53')
     if ni or nn:
         ctx.nontrivial(('div', repr(sorted(case.items()))))
     ctx.sample(case, bool(ni or nn))
     # repr method computes in float64: only sound when the operand values and the quotient are exact doubles of moderate size
     if case['method'] == 'repr':
         fz = res_fmt(case['op'], fx, fy)
-        if fz[1] > 40:
+        if fz[1] > 40 or max(fx[1], fy[1]) > 53:
             case = dict(case, method='raw')
     check_div(ctx, case)
 
